@@ -26,6 +26,7 @@ import (
 )
 
 type plan struct {
+	close  bool // the origin's answer carries Connection: close
 	status int
 	hdr    [][2]string
 	body   []byte
@@ -54,7 +55,7 @@ func (w *e2eWorld) RoundTrip(req *http.Request) (*http.Response, error) {
 	}
 	return &http.Response{StatusCode: pl.status, Status: fmt.Sprintf("%d %s", pl.status, http.StatusText(pl.status)),
 		Proto: "HTTP/1.1", ProtoMajor: 1, ProtoMinor: 1, Header: h, ContentLength: int64(len(pl.body)),
-		Body: ioutil.NopCloser(bytes.NewReader(pl.body)), Request: req}, nil
+		Body: ioutil.NopCloser(bytes.NewReader(pl.body)), Request: req, Close: pl.close}, nil
 }
 
 // notifyLn hands every accepted shaped connection to the harness as well (the proxy still receives
@@ -118,9 +119,10 @@ func (w *e2eWorld) finish() {
 
 const e2eWait = 20 * time.Second
 
-func (e *ex) doDial(id, gS string) core.Result {
+func (e *ex) doDial(id, gS, tickS string) core.Result {
 	g, gerr := strconv.ParseInt(gS, 10, 64)
-	if _, dup := e.conns[id]; dup || e.tsl == nil || (gS != "" && (gerr != nil || g < 1)) {
+	tickMs, terr := strconv.Atoi(tickS)
+	if _, dup := e.conns[id]; dup || e.tsl == nil || (gS != "" && (gerr != nil || g < 1)) || (tickS != "" && (terr != nil || tickMs < 1 || tickMs > 100)) {
 		return core.Result{Impl: "bad-op"}
 	}
 	w, err := e.world()
@@ -157,6 +159,16 @@ func (e *ex) doDial(id, gS string) core.Result {
 		}
 		core.Count("dial:shared-bucket-limited")
 	}
+	if tickS != "" {
+		// the connection's own write buckets drain every few milliseconds instead of every second
+		cs.tick = time.Duration(tickMs) * time.Millisecond
+		for re, b := range tc.LocalBuckets {
+			nb := trafficshape.NewBucket(b.WriteBucket.Capacity(), cs.tick)
+			b.WriteBucket.Close()
+			tc.LocalBuckets[re] = &trafficshape.Buckets{ReadBucket: b.ReadBucket, WriteBucket: nb}
+		}
+		core.Count("dial:own-buckets-fast-tick")
+	}
 	core.Count("dial")
 	impl := "conn -"
 	if len(keys) > 0 {
@@ -189,12 +201,21 @@ func waitProxy(addr string, w0, c0 int, d time.Duration) (closed, ok bool) {
 	}
 }
 
-func (e *ex) doReq(id, u, rS, lenS string) core.Result {
+func (e *ex) doReq(id, u, rS, lenS, opt string) core.Result {
 	cs, ok := e.conns[id]
 	url, ok2 := urlOf[u]
 	blen, err := strconv.Atoi(lenS)
-	if !ok || !ok2 || err != nil || blen < 0 || blen > 1<<22 || cs.client == nil || cs.closed || e.w == nil {
+	if !ok || !ok2 || err != nil || blen < 0 || blen > 1<<22 || cs.client == nil || cs.closed || e.w == nil ||
+		(opt != "" && opt != "c" && opt != "ce" && opt != "h10" && opt != "h10e") {
 		return core.Result{Impl: "bad-op"}
+	}
+	// connection options: the client asks for the connection to be closed after this response
+	// (Connection: close, or an HTTP/1.0 request); the origin's answer says so too ("e") or not
+	wantClose := opt != ""
+	echo := strings.HasSuffix(opt, "e")
+	proto := "HTTP/1.1"
+	if strings.HasPrefix(opt, "h10") {
+		proto = "HTTP/1.0"
 	}
 	// the origin's answer
 	var k, rs int64
@@ -226,6 +247,7 @@ func (e *ex) doReq(id, u, rS, lenS string) core.Result {
 	for i := range pl.body {
 		pl.body[i] = originByte(u, k+int64(i))
 	}
+	pl.close = echo
 	e.w.mu.Lock()
 	e.w.plan = pl
 	e.w.mu.Unlock()
@@ -241,7 +263,10 @@ func (e *ex) doReq(id, u, rS, lenS string) core.Result {
 	}
 	cs.nreq++
 	var rq strings.Builder
-	fmt.Fprintf(&rq, "GET %s HTTP/1.1\r\nHost: %s\r\n", url, strings.SplitN(strings.TrimPrefix(url, "http://"), "/", 2)[0])
+	fmt.Fprintf(&rq, "GET %s %s\r\nHost: %s\r\n", url, proto, strings.SplitN(strings.TrimPrefix(url, "http://"), "/", 2)[0])
+	if opt == "c" || opt == "ce" {
+		rq.WriteString("Connection: close\r\n")
+	}
 	if pl.status == 206 {
 		fmt.Fprintf(&rq, "Range: bytes=%d-\r\n", k)
 	}
@@ -289,6 +314,15 @@ func (e *ex) doReq(id, u, rS, lenS string) core.Result {
 		return core.Result{Impl: "hang", Sig: "hang", Fail: fmt.Sprintf("the proxy neither finished nor closed the exchange (head complete=%v, %d of %d body bytes, read error %v)", headOK, len(got), cl, rerr)}
 	}
 	core.Count("req")
+	if wantClose {
+		core.Count("req:client-asks-close:" + opt)
+	}
+	// the proxy closing the connection after a response whose request asked for it is not a cut:
+	// a cut shows as a short body or as the close action's event
+	connClosed := closed
+	if wantClose && closed && len(got) == blen && !theHook.has("c@") {
+		closed = false
+	}
 	core.Count(fmt.Sprintf("req:body>4096=%v", blen > 4096))
 	// the oracle's view of this response (same bookkeeping as `ctx`)
 	hl := int64(len(head))
@@ -304,8 +338,17 @@ func (e *ex) doReq(id, u, rS, lenS string) core.Result {
 	data := append(append([]byte{}, head...), pl.body...)
 	delta := append(append([]byte{}, head...), got...)
 	res := e.wrote(id, cs, data, delta, len(delta), werr, el, -1, "r", false)
-	res.ModelOp = fmt.Sprintf("resp %s %s %d %d %d", id, u, rs, hl, blen)
-	if closed {
+	keep := "keep"
+	if wantClose {
+		keep = "close"
+	}
+	res.ModelOp = fmt.Sprintf("resp %s %s %d %d %d %s", id, u, rs, hl, blen, keep)
+	if wantClose && !connClosed {
+		// the proxy must not keep a connection its client wanted closed; either way this connection is done
+		connClosed = true
+		core.Count("req:close-not-honoured")
+	}
+	if connClosed {
 		// the proxy closed its side (Conn.Close runs in handleLoop); the client follows
 		cs.client.Close()
 		cs.closed = true
